@@ -211,7 +211,7 @@ Definition expected_result (i : entry_input) : option N :=
   | EReadHeader FValid => Some 0
   | EReadHeader (FOversized | FTruncated | FEof) => Some 1
   (* end to end the result class is the liveness probe: after the hostile exchange an honest
-     peer is still admitted (0) *)
+     peer still completes its handshake and is registered (0) *)
   | EE2EInbound _ _ | EE2EOutbound _ _ => Some 0
   | _ => None
   end.
